@@ -720,6 +720,13 @@ func c10Lemmas(c *Ctx, p *Program) {
 		c.guard(p, "C10.lemma", "a policy whose number of inputs differs from gates+1 is rejected", f,
 			GuardSpec{BinAssumes: []BinAssume{binDesc(f, "len(Inputs) != len(Gates)+1", `len\(param#0\.Inputs\) != \(len\(param#0\.F\.Gates\)\+1\)|\(len\(param#0\.F\.Gates\)\+1\) != len\(param#0\.Inputs\)`, latTrue)}})
 	}
+	// tkn20: the gates of a decoded policy name wires inside the formula (Policy.String, ExtractPolicy and
+	// the attribute matching index per-wire tables by gate.In0 / In1 / Out without further checks)
+	{
+		f := p.Func("abe/cpabe/tkn20/internal/tkn", "Policy", "UnmarshalBinary")
+		c.guard(p, "C10.lemma", "a policy whose formula is not well formed (wire index out of range, wire used twice) is rejected", f,
+			GuardSpec{Assumes: []Assume{calleeAssume(latNonNil, -1, "(*abe/cpabe/tkn20/internal/tkn.Formula).wellformed")}})
+	}
 	// sidh parameter tables
 	for _, pk := range []string{"p434", "p503", "p751"} {
 		e, info := p.varInit("dh/sidh/internal/"+pk, "params")
